@@ -6,8 +6,10 @@ package main
 //	core/aggregator/netsample      DiscardedShootCodeError, DiscardedShootTag, DiscardedShootSample
 //	core/engine/instance.go        the fire/discard `if` of (*instance).Run and the whole loop of Run (`iteration`)
 //	core/coreutil/waiter.go        (*Waiter).IsFinished
-//	core/engine/engine.go          the struct tag of InstancePoolConfig.DiscardOverflow, the wiring into instanceSharedDeps
+//	core/engine/engine.go          the struct tag of InstancePoolConfig.DiscardOverflow, the wiring into instanceSharedDeps,
+//	                               buildNewInstanceSchedule: own schedule per instance (rps-per-instance) or one shared schedule
 //	cli/cli.go                     readConfig: the default of `discard_overflow` for a pool that does not mention it
+//	docs/eng/best_practices/discard-overflow.md   the documented option name, default, net code, tag and window (round 2)
 //
 // into lean/Pandora/Gen/Waiter.lean, as definitions over the vocabulary of Pandora/Model/C04.lean (records `Waiter`,
 // `Env`, `DiscardSample`, `timeSub`). The file is core-only. Reading of Go used here (trusted, see notes/C04.md):
@@ -22,7 +24,8 @@ package main
 //	w.sched.Left()                            -> left
 //	instance.Run: `for !waiter.IsFinished(ctx) { err := func() error {BODY}(); if err != nil { return err } }`
 //	    -> one pass = `if it.finished then loopEnd else BODY`; in BODY: Acquire -> it.ammoOk, waiter.Wait(ctx) -> Wait w it.env,
-//	       waiter.IsSlowDown(ctx) -> IsSlowDown w it.ctxDoneSlow, gun.Shoot -> Outcome.shoot,
+//	       waiter.IsSlowDown(ctx) -> IsSlowDown w it.ctxDoneSlow (also through a local `slow := waiter.IsSlowDown(ctx)`, read from
+//	       the waiter state at the point of the statement), gun.Shoot -> Outcome.shoot,
 //	       aggregator.Report(netsample.DiscardedShootSample()) -> Outcome.discard DiscardedShootSample;
 //	       statements without an effect the property speaks about are skipped: i.log.*, i.metrics.*.Add, `if tag.Debug {log}`,
 //	       `defer i.provider.Release(ammo)`, the deferred recover/metrics closure of Run
@@ -37,8 +40,10 @@ import (
 	"go/printer"
 	"go/token"
 	"go/types"
+	"os"
 	"path/filepath"
 	"reflect"
+	"regexp"
 	"strconv"
 	"strings"
 
@@ -55,7 +60,7 @@ func init() {
 	}
 }
 
-type wtr struct {
+type waiterTr struct {
 	t   *tr
 	pkg *packages.Package
 	// name of the receiver variable and of the env record in the emitted Lean
@@ -64,15 +69,17 @@ type wtr struct {
 	armStmt *ast.IfStmt
 	// inside Wait: `w.sched.Next()` has been translated (statements are translated in source order)
 	inWait, nextSeen bool
+	// instance.Run: locals that hold an answer of <waiter>.IsSlowDown(ctx) (`slow := waiter.IsSlowDown(ctx)`)
+	slowLocals map[string]bool
 }
 
-func (x *wtr) fail(n ast.Node, format string, a ...any) string {
+func (x *waiterTr) fail(n ast.Node, format string, a ...any) string {
 	msg := fmt.Sprintf("%s: unsupported (waiter area): %s", x.pkg.Fset.Position(n.Pos()), fmt.Sprintf(format, a...))
 	x.t.errs = append(x.t.errs, msg)
 	return "(UNSUPPORTED)"
 }
 
-func (x *wtr) src(n ast.Node) string {
+func (x *waiterTr) src(n ast.Node) string {
 	var b bytes.Buffer
 	_ = printer.Fprint(&b, x.pkg.Fset, n)
 	return strings.Join(strings.Fields(b.String()), " ")
@@ -100,7 +107,7 @@ func waiterFindMethod(p *packages.Package, recvType, name string) *ast.FuncDecl 
 var waiterFields = map[string]string{"lastNow": "lastNow", "overdueDuration": "overdue"}
 
 // isCtxDone: `<-ctx.Done()`
-func (x *wtr) isCtxDone(e ast.Expr) bool {
+func (x *waiterTr) isCtxDone(e ast.Expr) bool {
 	u, ok := e.(*ast.UnaryExpr)
 	if !ok || u.Op != token.ARROW {
 		return false
@@ -108,7 +115,7 @@ func (x *wtr) isCtxDone(e ast.Expr) bool {
 	return x.src(u.X) == "ctx.Done()"
 }
 
-func (x *wtr) expr(e ast.Expr) string {
+func (x *waiterTr) expr(e ast.Expr) string {
 	info := x.pkg.TypesInfo
 	switch v := e.(type) {
 	case *ast.ParenExpr:
@@ -183,7 +190,7 @@ func (x *wtr) expr(e ast.Expr) string {
 }
 
 // timerArm recognises `if w.timer == nil { w.timer = time.NewTimer(d) } else { w.timer.Reset(d) }` and returns d.
-func (x *wtr) timerArm(s *ast.IfStmt) (string, bool) {
+func (x *waiterTr) timerArm(s *ast.IfStmt) (string, bool) {
 	if x.src(s.Cond) != x.recv+".timer == nil" || s.Else == nil || len(s.Body.List) != 1 {
 		return "", false
 	}
@@ -205,7 +212,7 @@ func (x *wtr) timerArm(s *ast.IfStmt) (string, bool) {
 }
 
 // block translates statements of Wait into a Lean term of type `Waiter × Bool`.
-func (x *wtr) block(stmts []ast.Stmt, ind string) string {
+func (x *waiterTr) block(stmts []ast.Stmt, ind string) string {
 	if len(stmts) == 0 {
 		return ind + "(UNSUPPORTED-fallthrough)"
 	}
@@ -304,7 +311,7 @@ func waiterConstDef(p *packages.Package, name string) (string, bool) {
 func waiterExtra(t *tr) string {
 	var b strings.Builder
 	b.WriteString("open Pandora.Go.C04 Pandora.Model.C04\n\n")
-	x := &wtr{t: t, pkg: t.pkg, recv: "w"}
+	x := &waiterTr{t: t, pkg: t.pkg, recv: "w"}
 
 	// --- coreutil
 	if d, ok := waiterConstDef(t.pkg, "MaxOverdueDuration"); ok {
@@ -371,7 +378,7 @@ func waiterExtra(t *tr) string {
 			t.errs = append(t.errs, "const "+c+" not found")
 		}
 	}
-	nx := &wtr{t: t, pkg: ns}
+	nx := &waiterTr{t: t, pkg: ns}
 	if fd := findFunc(ns, "DiscardedShootSample"); fd != nil {
 		// sample := &Sample{timeStamp: time.Now(), tags: T}; sample.SetUserNet(C); return sample
 		tags, net := "", ""
@@ -430,7 +437,7 @@ func waiterExtra(t *tr) string {
 
 	// --- engine: the fire/discard decision of (*instance).Run
 	en := load("github.com/yandex/pandora/core/engine")
-	ex := &wtr{t: t, pkg: en}
+	ex := &waiterTr{t: t, pkg: en}
 	found := false
 	if fd := waiterFindMethod(en, "instance", "Run"); fd != nil {
 		ast.Inspect(fd.Body, func(n ast.Node) bool {
@@ -485,7 +492,10 @@ func waiterExtra(t *tr) string {
 	b.WriteString("\n" + ex.engineWiring())
 
 	// --- cli: default of discard_overflow
-	b.WriteString("\n" + cliDiscardDefault(t))
+	b.WriteString("\n" + waiterCliDiscardDefault(t))
+
+	// --- docs: what the user documentation promises
+	b.WriteString("\n" + waiterDocFacts(t))
 	return b.String()
 }
 
@@ -493,7 +503,7 @@ func waiterExtra(t *tr) string {
 // (*instance).Run
 
 // ignorable: a statement without an effect the property speaks about (logging, metrics, releasing the ammo).
-func (x *wtr) ignorable(s ast.Stmt) bool {
+func (x *waiterTr) ignorable(s ast.Stmt) bool {
 	switch v := s.(type) {
 	case *ast.ExprStmt:
 		src := x.src(v)
@@ -521,7 +531,7 @@ func (x *wtr) ignorable(s ast.Stmt) bool {
 }
 
 // loopCond translates the fire condition over the atoms i.discardOverflow and <waiter>.IsSlowDown(ctx).
-func (x *wtr) loopCond(e ast.Expr, wv string) string {
+func (x *waiterTr) loopCond(e ast.Expr, wv string) string {
 	switch v := e.(type) {
 	case *ast.ParenExpr:
 		return x.loopCond(v.X, wv)
@@ -544,12 +554,16 @@ func (x *wtr) loopCond(e ast.Expr, wv string) string {
 		if x.src(v) == wv+".IsSlowDown(ctx)" {
 			return "(IsSlowDown w it.ctxDoneSlow)"
 		}
+	case *ast.Ident:
+		if x.slowLocals[v.Name] {
+			return mangle(v.Name)
+		}
 	}
 	return x.fail(e, "fire condition %s", x.src(e))
 }
 
 // branchOutcome: the one effect of a branch of the fire/discard `if`.
-func (x *wtr) branchOutcome(b *ast.BlockStmt) string {
+func (x *waiterTr) branchOutcome(b *ast.BlockStmt) string {
 	var eff []string
 	for _, s := range b.List {
 		if x.ignorable(s) {
@@ -571,7 +585,7 @@ func (x *wtr) branchOutcome(b *ast.BlockStmt) string {
 }
 
 // closure translates the body of the `func() error {…}` of one pass into a term of type `Waiter × Outcome`.
-func (x *wtr) closure(stmts []ast.Stmt, wv string, ind string) string {
+func (x *waiterTr) closure(stmts []ast.Stmt, wv string, ind string) string {
 	for len(stmts) > 0 && x.ignorable(stmts[0]) {
 		stmts = stmts[1:]
 	}
@@ -581,6 +595,17 @@ func (x *wtr) closure(stmts []ast.Stmt, wv string, ind string) string {
 	s, rest := stmts[0], stmts[1:]
 	switch v := s.(type) {
 	case *ast.AssignStmt:
+		// slow := waiter.IsSlowDown(ctx): the answer is taken from the waiter state AT THIS POINT of the pass (`w` is the state
+		// before Wait if the statement precedes it, after Wait if it follows)
+		if len(v.Lhs) == 1 && len(v.Rhs) == 1 && v.Tok == token.DEFINE && x.src(v.Rhs[0]) == wv+".IsSlowDown(ctx)" {
+			if id, ok := v.Lhs[0].(*ast.Ident); ok {
+				if x.slowLocals == nil {
+					x.slowLocals = map[string]bool{}
+				}
+				x.slowLocals[id.Name] = true
+				return ind + "let " + mangle(id.Name) + " : Bool := IsSlowDown w it.ctxDoneSlow\n" + x.closure(rest, wv, ind)
+			}
+		}
 		// ammo, ok := i.provider.Acquire(); if !ok { …; return <non-nil> }
 		if len(v.Lhs) == 2 && len(v.Rhs) == 1 && x.src(v.Rhs[0]) == "i.provider.Acquire()" && x.src(v.Lhs[0]) == "ammo" && len(rest) > 0 {
 			okv := x.src(v.Lhs[1])
@@ -616,7 +641,7 @@ func (x *wtr) closure(stmts []ast.Stmt, wv string, ind string) string {
 	return ind + x.fail(s, "statement %s of the pass closure", x.src(s))
 }
 
-func (x *wtr) instanceLoop(fd *ast.FuncDecl) string {
+func (x *waiterTr) instanceLoop(fd *ast.FuncDecl) string {
 	wv := ""
 	var loop *ast.ForStmt
 	var after []ast.Stmt
@@ -682,7 +707,7 @@ func (x *wtr) instanceLoop(fd *ast.FuncDecl) string {
 }
 
 // engineWiring: `config:"…"` tag of InstancePoolConfig.DiscardOverflow and the field the instances' discardOverflow is copied from.
-func (x *wtr) engineWiring() string {
+func (x *waiterTr) engineWiring() string {
 	var b strings.Builder
 	key := ""
 	var field *types.Var
@@ -747,14 +772,116 @@ func (x *wtr) engineWiring() string {
 	}
 	b.WriteString("/-- regenerated from `core/engine`: number of assignment statements that write a `discardOverflow`/`DiscardOverflow` field -/\n")
 	b.WriteString(fmt.Sprintf("def discardFieldAssignments : Nat := %d\n", assigns))
+	b.WriteString("\n" + x.scheduleSharing())
 	return b.String()
 }
 
-// cliDiscardDefault reads cli/cli.go (syntax only) for
+// scheduleSharing reads (*instancePool).buildNewInstanceSchedule:
+//
+//	if COND { return p.NewRPSSchedule, nil }            -> every instance calls the constructor: its OWN schedule
+//	S, err := p.NewRPSSchedule() ... [S = wrapper(S, …)] ... return func() (core.Schedule, error) { return S, err }, nil
+//	                                                    -> ONE schedule, created once, handed to every instance: SHARED
+//
+// COND is a formula over p.RPSPerInstance. Also: newInstance takes its schedule from deps.newSchedule() and startInstances
+// passes the built function as newSchedule.
+func (x *waiterTr) scheduleSharing() string {
+	fd := waiterFindMethod(x.pkg, "instancePool", "buildNewInstanceSchedule")
+	if fd == nil || len(fd.Body.List) < 3 {
+		return x.fail(x.pkg.Syntax[0], "(*instancePool).buildNewInstanceSchedule not found")
+	}
+	var cond func(e ast.Expr) string
+	cond = func(e ast.Expr) string {
+		switch v := e.(type) {
+		case *ast.ParenExpr:
+			return cond(v.X)
+		case *ast.UnaryExpr:
+			if v.Op == token.NOT {
+				return "(!" + cond(v.X) + ")"
+			}
+		case *ast.SelectorExpr:
+			if x.src(v) == "p.RPSPerInstance" {
+				return "perInstance"
+			}
+		}
+		return x.fail(e, "condition %s of buildNewInstanceSchedule", x.src(e))
+	}
+	ifs, ok := fd.Body.List[0].(*ast.IfStmt)
+	if !ok || ifs.Init != nil || ifs.Else != nil || len(ifs.Body.List) != 1 || x.src(ifs.Body.List[0]) != "return p.NewRPSSchedule, nil" {
+		return x.fail(fd.Body.List[0], "first statement of buildNewInstanceSchedule (want `if … { return p.NewRPSSchedule, nil }`)")
+	}
+	// the rest: exactly one top-level creation, optional re-wrapping assignments, error check, return of a closure over it
+	shared := ""
+	var wrappers []string
+	created := 0
+	for _, st := range fd.Body.List[1 : len(fd.Body.List)-1] {
+		switch v := st.(type) {
+		case *ast.AssignStmt:
+			if len(v.Rhs) == 1 && x.src(v.Rhs[0]) == "p.NewRPSSchedule()" && len(v.Lhs) == 2 && v.Tok == token.DEFINE {
+				shared = x.src(v.Lhs[0])
+				created++
+				continue
+			}
+			if len(v.Lhs) == 1 && len(v.Rhs) == 1 && shared != "" && x.src(v.Lhs[0]) == shared {
+				if call, ok := v.Rhs[0].(*ast.CallExpr); ok && len(call.Args) >= 1 && x.src(call.Args[0]) == shared {
+					wrappers = append(wrappers, strconv.Quote(x.src(call.Fun)))
+					continue
+				}
+			}
+		case *ast.IfStmt:
+			if x.src(v.Cond) == "err != nil" {
+				continue
+			}
+		}
+		return x.fail(st, "statement %s of buildNewInstanceSchedule", x.src(st))
+	}
+	last := fd.Body.List[len(fd.Body.List)-1]
+	okRet := false
+	if ret, isRet := last.(*ast.ReturnStmt); isRet && len(ret.Results) == 2 {
+		if lit, isLit := ret.Results[0].(*ast.FuncLit); isLit && len(lit.Body.List) == 1 && shared != "" && created == 1 {
+			okRet = x.src(lit.Body.List[0]) == "return "+shared+", err"
+		}
+	}
+	if !okRet {
+		return x.fail(last, "buildNewInstanceSchedule must end with `return func() (core.Schedule, error) { return <the one schedule>, err }, nil`")
+	}
+	// newInstance: sched, err := deps.newSchedule(); instance{… schedule: sched …}; startInstances: newSchedule: <parameter>
+	from := "<not found>"
+	for _, f := range x.pkg.Syntax {
+		for _, d := range f.Decls {
+			if nf, ok := d.(*ast.FuncDecl); ok && nf.Recv == nil && nf.Name.Name == "newInstance" {
+				v := ""
+				ast.Inspect(nf.Body, func(n ast.Node) bool {
+					switch t := n.(type) {
+					case *ast.AssignStmt:
+						if len(t.Rhs) == 1 && x.src(t.Rhs[0]) == "deps.newSchedule()" && len(t.Lhs) == 2 {
+							v = x.src(t.Lhs[0])
+						}
+					case *ast.KeyValueExpr:
+						if x.src(t.Key) == "schedule" && v != "" && x.src(t.Value) == v {
+							from = "deps.newSchedule()"
+						}
+					}
+					return true
+				})
+			}
+		}
+	}
+	var b strings.Builder
+	b.WriteString("/-- regenerated from `core/engine/engine.go` `(*instancePool).buildNewInstanceSchedule`: the schedule an instance's Waiter runs\n")
+	b.WriteString("over — its own (the pool's constructor is called per instance) or the one shared schedule (created once, closed over) -/\n")
+	b.WriteString("def scheduleKind (perInstance : Bool) : SchedKind := if " + cond(ifs.Cond) + " then SchedKind.own else SchedKind.shared\n\n")
+	b.WriteString("/-- what the shared schedule is wrapped in before it is handed out (wrappers pass `Next`/`Left` through) -/\n")
+	b.WriteString("def sharedScheduleWrappers : List String := [" + strings.Join(wrappers, ", ") + "]\n\n")
+	b.WriteString("/-- `newInstance`: where `instance.schedule` (the argument of `coreutil.NewWaiter` in `Run`) comes from -/\n")
+	b.WriteString("def instanceScheduleFrom : String := " + strconv.Quote(from) + "\n")
+	return b.String()
+}
+
+// waiterCliDiscardDefault reads cli/cli.go (syntax only) for
 //
 //	if pools, ok := v.Get(K).([]any); ok { for i, pool := range pools { …
 //	    if _, ok := poolMap[KEY]; !ok { poolMap[KEY2] = VALUE } … pools[i] = poolMap } v.Set(K2, pools) }
-func cliDiscardDefault(t *tr) string {
+func waiterCliDiscardDefault(t *tr) string {
 	var b strings.Builder
 	fset := token.NewFileSet()
 	path := filepath.Join(repo, "cli", "cli.go")
@@ -850,4 +977,104 @@ func cliDiscardDefault(t *tr) string {
 	b.WriteString("def cliPoolsSetKey : String := " + strconv.Quote(unq(h.setKey)) + "\n")
 	b.WriteString("def cliDecodesAfterDefault : Bool := " + map[bool]string{true: "true", false: "false"}[h.decodeAfter != ""] + "\n")
 	return b.String()
+}
+
+// waiterDocFacts reads docs/eng/best_practices/discard-overflow.md (plain text, no Go): the option name, the documented
+// default, the net code and tag of a discarded request and every "<n> second(s)" the text mentions for the window. The phrases
+// are matched loosely (any wording around the literal values survives); a value that cannot be found is a broken obligation.
+func waiterDocFacts(t *tr) string {
+	path := filepath.Join(repo, "docs", "eng", "best_practices", "discard-overflow.md")
+	raw, err := os.ReadFile(path)
+	if err != nil {
+		t.errs = append(t.errs, "docs/eng/best_practices/discard-overflow.md: "+err.Error())
+		return ""
+	}
+	text := strings.Join(strings.Fields(string(raw)), " ")
+	low := strings.ToLower(text)
+	var b strings.Builder
+	miss := func(what string) {
+		t.errs = append(t.errs, "docs/eng/best_practices/discard-overflow.md: "+what+" not found")
+	}
+	// the option: every back-quoted `name: true|false` / `name` that contains "overflow"
+	keys := map[string]bool{}
+	for _, m := range regexp.MustCompile("`([a-z_\\-]*overflow[a-z_\\-]*)(?::\\s*(?:true|false))?`").FindAllStringSubmatch(low, -1) {
+		keys[m[1]] = true
+	}
+	var keyList []string
+	for k := range keys {
+		keyList = append(keyList, k)
+	}
+	waiterSortStrings(keyList)
+	if len(keyList) == 0 {
+		miss("the option name")
+	}
+	// the default: a sentence with "default" that quotes `<option>: true|false`
+	def := ""
+	for _, sent := range regexp.MustCompile(`[^.]*\bdefault\b[^.]*(?:\.[0-9][^.]*)*`).FindAllString(low, -1) {
+		if m := regexp.MustCompile("`[a-z_\\-]*overflow[a-z_\\-]*:\\s*(true|false)`").FindStringSubmatch(sent); m != nil {
+			if def != "" && def != m[1] {
+				def = "conflict"
+			} else {
+				def = m[1]
+			}
+		}
+	}
+	if def != "true" && def != "false" {
+		miss("the documented default (`discard_overflow: true|false` in a sentence with 'default')")
+		def = "false"
+	}
+	// net code: a number next to "net error" / "net code"
+	var codes []string
+	for _, m := range regexp.MustCompile("net (?:error|code)[^0-9.]{0,12}([0-9]+)").FindAllStringSubmatch(low, -1) {
+		codes = append(codes, m[1])
+	}
+	if len(codes) == 0 {
+		miss("the net code of a discarded request")
+	}
+	// tag: "tagged as <word>" / "tag <word>"
+	var tags []string
+	for _, m := range regexp.MustCompile("tag(?:ged)?(?: as| with)? [`'\"]?([a-z_]+)[`'\"]?").FindAllStringSubmatch(low, -1) {
+		tags = append(tags, m[1])
+	}
+	if len(tags) == 0 {
+		miss("the tag of a discarded request")
+	}
+	// the window: every "<n> second(s)"
+	var secs []string
+	for _, m := range regexp.MustCompile("([0-9]+(?:\\.[0-9]+)?)[ -]seconds?\\b").FindAllStringSubmatch(low, -1) {
+		if strings.Contains(m[1], ".") {
+			t.errs = append(t.errs, "docs/eng/best_practices/discard-overflow.md: fractional window "+m[1]+" s")
+			continue
+		}
+		secs = append(secs, m[1])
+	}
+	if len(secs) == 0 {
+		miss("the length of the window in seconds")
+	}
+	q := func(l []string) string {
+		o := make([]string, len(l))
+		for i, x := range l {
+			o[i] = strconv.Quote(x)
+		}
+		return "[" + strings.Join(o, ", ") + "]"
+	}
+	b.WriteString("/-- regenerated from `docs/eng/best_practices/discard-overflow.md`: every back-quoted option name that contains \"overflow\" -/\n")
+	b.WriteString("def docOptionKeys : List String := " + q(keyList) + "\n\n")
+	b.WriteString("/-- the documented default of the option (the sentence with \"default\") -/\n")
+	b.WriteString("def docDefault : Bool := " + def + "\n\n")
+	b.WriteString("/-- every number the text gives next to \"net error\" / \"net code\" -/\n")
+	b.WriteString("def docNetCodes : List Int := [" + strings.Join(codes, ", ") + "]\n\n")
+	b.WriteString("/-- every word the text gives after \"tagged as\" -/\n")
+	b.WriteString("def docTags : List String := " + q(tags) + "\n\n")
+	b.WriteString("/-- every \"<n> second(s)\" of the text: the window -/\n")
+	b.WriteString("def docWindowSeconds : List Int := [" + strings.Join(secs, ", ") + "]\n")
+	return b.String()
+}
+
+func waiterSortStrings(l []string) {
+	for i := 1; i < len(l); i++ {
+		for j := i; j > 0 && l[j] < l[j-1]; j-- {
+			l[j], l[j-1] = l[j-1], l[j]
+		}
+	}
 }
